@@ -74,7 +74,7 @@ double complex vnacal_get_parameter_value(vnacal_t *vcp, int parameter,
     upper = (1.0 + VNACAL_F_EXTRAPOLATION) * fmax;
     if (frequency < lower || frequency > upper) {
 	_vnacal_error(vcp, VNAERR_USAGE, "vnacal_get_parameter_value: "
-		"frequency %e must be between %e and %e\n",
+		"frequency %e must be between %e and %e",
 		frequency, fmin, fmax);
 	return HUGE_VAL;
     }
